@@ -585,6 +585,24 @@ def run(repo: Repo, rep: Report, tier: str) -> None:
                   "no early `return False` for an IRConst producer: a constant marked as a coordinate gets a combinator as soon as something else reads it, and readers that "
                   "need a literal (an inlined entity condition) lose it", hlc.loc())
 
+    # ---------------- R21 --------------------------------------------------------------
+    rep.rule("C10-R21", "two references are the same operand for CSE only if they come from the same node: every key the CSE pass builds for a reference (`_value_key`, the "
+             "SignalRef arm) contains the source id of the reference (after replacement) — a key made of the signal type alone makes reads of two different cells, or two "
+             "different producers on one signal, one operand, and the readers of the second are merged into the readers of the first")
+    vk = repo.func("CSEOptimizer._value_key")
+    cvk = _canon(vk)
+    from .util import cguards as _cg21
+    n21 = 0
+    for r21 in [n for n in walk_local(vk.node) if isinstance(n, ast.Return) and n.value is not None]:
+        if not any(pol and re.fullmatch(r"isinstance\(.+, SignalRef\)", g) for g, pol in _cg21(vk, r21)):
+            continue
+        n21 += 1
+        t21 = cvk.text(r21.value, r21)
+        ok21 = ".source_id" in t21
+        rep.check(ok21, "C10-R21", f"CSEOptimizer._value_key: reference key #{n21} contains the source id", t21[:90] if ok21 else
+                  f"`{t21[:90]}` identifies the operand without its source: distinct producers become one operand", vk.loc(r21))
+    rep.floor("C10-R21", "reference keys of the CSE pass", n21, 1)
+
     # ---------------- R20 --------------------------------------------------------------
     _borrow10b(repo, rep, "C12", "C12-R10", "C10-R20", "CSE makes one node feed the readers of all the expressions it merged: the fan-out it creates is separated from the differing "
                "same-named inputs of those readers like any other shared source", floor=2)
